@@ -54,11 +54,27 @@ def checkLeft (normal : Pt) (p : Pt) : Bool := decide (distance normal p ≤ 0)
 /-- `OriginLinearEquation::check_side(point, LineSide::Right)`: `distance >= 0` -/
 def checkRight (normal : Pt) (p : Pt) : Bool := decide (distance normal p ≥ 0)
 
+/-- The early `return false` of `PlaneSector::contains`: for `Operation::Intersection` with two
+normals that point the same way (`left.dot_product(right) > 0`) a point on the far side of the
+bisector `(left.y + right.y, -(left.x + right.x))` of the two boundary rays is rejected. (Repair of
+the degenerate sweep: parallel, equally directed normals — sweep 0 or too small to be resolved —
+made the intersection the whole line through the centre, opposite ray included.) -/
+def behindBisector (ps : PlaneSector) (p : Pt) : Bool :=
+  if ps.op = .intersection then
+    if dotProduct ps.left ps.right > 0 then
+      let bisector : Pt := ⟨ps.left.y + ps.right.y, -(ps.left.x + ps.right.x)⟩
+      decide (dotProduct p bisector < 0)
+    else
+      false
+  else
+    false
+
 /-- `PlaneSector::contains` -/
 def contains (ps : PlaneSector) (p : Pt) : Bool :=
   let correctSide1 := checkLeft ps.left p
   let correctSide2 := checkRight ps.right p
-  ps.op.execute correctSide1 correctSide2
+  if ps.behindBisector p then false
+  else ps.op.execute correctSide1 correctSide2
 
 /-- The value `PlaneSector::new` returns when `|sweep| >= 360°`: `EntirePlane` with two
 `new_horizontal()` half planes (`NORMAL_VECTOR_SCALE = 1 << 10`). -/
